@@ -133,6 +133,69 @@ def judge_conc(sc, r):
     return None, evs
 
 
+# ---------------------------------------------------------------- a timed lock acquired after waiting
+
+TA, TB = 300, 700
+
+
+def gen_wait(rng, sid, path):
+    """A takes the lock for TA ms and keeps it; B asks for it with timeout TB and a long deadline, so it waits until A's
+    lock expires; B's timeout must run from the moment B acquired the lock, not from its call."""
+    d = "c08w%d" % sid
+    k = dmaplib.hx("waited")
+    return {"id": sid, "_path": path, "clients": [
+        {"ops": [{"op": "lock", "c": rng.choice(LPATHS), "d": d, "k": k, "ms": TA, "dl": 30, "tok": d + "-a"}]},
+        {"ops": [{"op": "sleep", "ms": 30},
+                 {"op": "lock", "c": path, "d": d, "k": k, "ms": TB, "dl": 3000, "tok": d + "-b"},
+                 {"op": "sleep", "ms": 560},
+                 {"op": "lease", "tok": d + "-b", "ms": 60000}]},
+        {"ops": [{"op": "sleep", "ms": TA + 480},
+                 {"op": "lock", "c": rng.choice(LPATHS), "d": d, "k": k, "ms": 0, "dl": 15, "tok": d + "-c"}]}]}
+
+
+def judge_wait(sc, r):
+    """returns (verdict or None, judged?)"""
+    a, b, c = r["clients"]
+    la, lb, lc = a[0], b[1], c[1]
+    if la.get("r") != "ok" or lb.get("r") != "ok":
+        return "Lock by A returned %s, waiting Lock by B returned %s" % (la.get("r"), lb.get("r")), True
+    # B cannot have acquired before A's lock expired; its timeout runs from its own acquisition
+    held_until = max(la["n0"] / 1e6 + TA, lb["n0"] / 1e6) + TB
+    judged = False
+    if c[1]["n1"] / 1e6 < held_until - dmaplib.MARGIN and c[1]["n1"] < b[3]["n0"]:
+        judged = True
+        if lc.get("r") != "locknotacquired":
+            return ("C's Lock returned %s %.0f ms after B acquired the lock with a %d ms timeout (B had waited %.0f ms for it)" % (
+                lc.get("r"), (c[1]["n1"] - lb["n1"]) / 1e6, TB, (lb["n1"] - lb["n0"]) / 1e6)), True
+    if b[3]["n1"] / 1e6 < held_until - dmaplib.MARGIN and lc.get("r") == "locknotacquired":
+        judged = True
+        if b[3].get("r") != "ok":
+            return ("B's Lease returned %s %.0f ms after B acquired the lock with a %d ms timeout (B had waited %.0f ms for it)" % (
+                b[3].get("r"), (b[3]["n1"] - lb["n1"]) / 1e6, TB, (lb["n1"] - lb["n0"]) / 1e6)), True
+    return None, judged
+
+
+def wait_part(res):
+    cfg = {"members": 3, "replicas": 2, "partitions": 7, "table": 4096, "evict_workers": 1}
+    scs = []
+    sid = 3000
+    for rep in range(1 if res.tier == "quick" else 6):
+        for path in LPATHS:
+            scs.append(gen_wait(vlib.rng_for(res.seed, PID, "wait", sid), sid, path))
+            sid += 1
+    results = conclib.run_groups([(cfg, scs)])
+    judged = 0
+    for sc in scs:
+        r = results[sc["id"]]
+        msg, j = judge_wait(sc, r)
+        judged += 1 if j else 0
+        if msg:
+            res.violation({"kind": "impl-violates-property", "cluster": cfg, "part": "wait",
+                           "scenario": {k: v for k, v in sc.items() if not k.startswith("_")}, "impl_trace": r["clients"],
+                           "predicate": {"name": "a timed lock is held for its timeout counted from the acquisition", "verdict": msg}, "seed": res.seed})
+    return len(scs), judged
+
+
 def run(res):
     # part 1: sequential scripts through the shared DMap driver (reference semantics + model)
     dmapcheck.run_dmap_check(
@@ -142,7 +205,8 @@ def run(res):
              "every path held before and acquirable after its timeout, Lease extension; judged by the reference semantics + mirror and compared with Model/DMap.v. "
              "(2) 3-6 competing lockers over all entry paths looping Lock -> critical section (occupancy counter in the harness) -> Unlock with deadlines 15/120 ms; "
              "predicates: never two occupants, failed Locks return no earlier than their deadline, the holder's Unlock succeeds; every history is judged by the "
-             "linearizability checker with the lock specification inside Coq")
+             "linearizability checker with the lock specification inside Coq. (3) a Lock with timeout 700 ms that has to wait ~270 ms for a 300 ms lock to expire, through every "
+             "entry path: a competitor's Lock and the holder's Lease placed in the last part of the timeout counted from the acquisition must find the lock held")
     if getattr(res, "harness_error", None):
         return
     seqcov = dict(res.coverage)
@@ -186,8 +250,10 @@ def run(res):
                        "history": [e for h, _, e in hists if h == hid][0], "impl_trace": r["clients"],
                        "predicate": {"name": "lin_lock (Model/Lin.v)", "verdict": "the lock history has no linearization: two clients held the lock at once or a token was honoured twice"},
                        "seed": res.seed})
+    nwait, jwait = wait_part(res)
     res.coverage = seqcov
     res.coverage.update({
+        "waited_lock_scenarios": nwait, "waited_lock_judged": jwait,
         "evaluations": seqcov.get("evaluations", 0) + len(hists) + len(failures),
         "distinct_nontrivial": seqcov.get("distinct_nontrivial", 0) + contended,
         "lock_histories": len(hists), "contended_histories": contended, "nonlinearizable": len(nonlin),
@@ -213,6 +279,17 @@ def replay(res, path):
     if not ok:
         raise vlib.CheckError(out)
     bad = 0
+    if obj.get("part") == "wait":
+        for i in range(5):
+            s = dict(sc, id=i)
+            r = conclib.run_conc(obj["cluster"], [s])[i]
+            msg, j = judge_wait(s, r)
+            print("run %d: %s" % (i, msg or ("held as required" if j else "not judged (timing)")))
+            bad += 1 if msg else 0
+        if bad:
+            print("VIOLATION property=%s replay=%s" % (res.pid, path))
+            return 1
+        return 0
     for i in range(30):
         s = dict(sc, id=i)
         r = conclib.run_conc(obj["cluster"], [s])[i]
